@@ -477,24 +477,58 @@ func isDispatchOrErrCond(cond ssa.Value) bool {
 // calls, each followed by the first use of a receiver field.
 func writerFieldTable(P *Program, fn *ssa.Function) map[string][2]int64 {
 	out := map[string][2]int64{}
+	fa := newAnalysis(P).fa(fn)
 	for _, b := range fn.Blocks {
 		var cur *[2]int64
-		var haveT, haveID bool
-		var t, id int64
+		hdr := map[int64]int64{} // constant header bytes seen since the last field use, by offset from the cursor
+		base := ""
+		note := func(idx *Lin, val int64) {
+			k := idx.clone()
+			off := k.C.Int64()
+			k.C.SetInt64(0)
+			if base == "" {
+				base = k.key()
+			}
+			if k.key() != base {
+				return
+			}
+			hdr[off] = val & 0xff
+		}
+		flush := func() {
+			if cur != nil || len(hdr) < 3 {
+				return
+			}
+			min := int64(1 << 62)
+			for o := range hdr {
+				if o < min {
+					min = o
+				}
+			}
+			t, ok0 := hdr[min]
+			hi, ok1 := hdr[min+1]
+			lo, ok2 := hdr[min+2]
+			if ok0 && ok1 && ok2 {
+				cur = &[2]int64{hi<<8 | lo, t}
+			}
+		}
 		for _, in := range b.Instrs {
 			switch x := in.(type) {
 			case *ssa.Store:
-				if ia, ok := x.Addr.(*ssa.IndexAddr); ok && ia.X == ssa.Value(fn.Params[1]) {
-					if k, okk := constInt(x.Val); okk && !haveT && cur == nil {
-						t, haveT = k, true
+				if ia, ok := x.Addr.(*ssa.IndexAddr); ok && cur == nil {
+					if d := fa.sliceDesc(ia.X); d != nil && d.Root == ssa.Value(fn.Params[1]) {
+						if k, okk := constInt(x.Val); okk {
+							note(d.Off.add(fa.expand(ia.Index)), k)
+						}
 					}
 				}
 			case *ssa.Call:
 				cal := x.Common().StaticCallee()
-				if cal != nil && cal.Pkg != nil && cal.Pkg.Pkg.Path() == "encoding/binary" && cal.Name() == "PutUint16" && haveT && !haveID {
+				if cal != nil && cal.Pkg != nil && cal.Pkg.Pkg.Path() == "encoding/binary" && cal.Name() == "PutUint16" && cur == nil {
 					if k, okk := constInt(x.Common().Args[2]); okk {
-						id, haveID = k, true
-						cur = &[2]int64{id, t}
+						if d := fa.sliceDesc(x.Common().Args[1]); d != nil && d.Root == ssa.Value(fn.Params[1]) {
+							note(d.Off, k>>8)
+							note(d.Off.addConst(1), k)
+						}
 					}
 				}
 				if cal != nil && cal.Name() == "WriteFieldBegin" && len(x.Common().Args) == 4 {
@@ -505,12 +539,15 @@ func writerFieldTable(P *Program, fn *ssa.Function) map[string][2]int64 {
 					}
 				}
 			case *ssa.UnOp:
-				if x.Op == token.MUL && cur != nil {
+				if x.Op == token.MUL {
 					if f := recvFieldOf(fn, x.X); f != "" && !strings.ContainsAny(f, "*[{") {
-						if _, dup := out[f]; !dup {
-							out[f] = *cur
+						flush()
+						if cur != nil {
+							if _, dup := out[f]; !dup {
+								out[f] = *cur
+							}
 						}
-						cur, haveT, haveID = nil, false, false
+						cur, hdr, base = nil, map[int64]int64{}, ""
 					}
 				}
 			}
@@ -856,24 +893,24 @@ func checkC15(P *Program, r *Result, tier string) {
 			}
 		}
 		r.add("HEADER", shortName(fn), "return", "the direct path reports 4 bytes written to the linear buffer", P.pos(instrPos(direct)), ret4, "")
-		// copying path: same arguments, reached when w == nil or len(v) < threshold
+		// copying path: every block that is not on the direct path stores exactly the copying writer's bytes
+		// (length prefix, payload) and reports 4 + len(v) — whether by calling the copying writer or inline
 		copyName := strings.TrimSuffix(n, "Nocopy")
-		var cp *ssa.Call
-		for _, c := range callsIn(fn) {
-			if cal := c.Common().StaticCallee(); cal != nil && cal.Name() == copyName {
-				cp = c.(*ssa.Call)
-			}
+		L := newLayouts(P)
+		wV, _ := typeWidth(v.Type())
+		sum := L.inplaceWriterOn(fn, buf, map[*ssa.Parameter]*bx{v: {op: "arg", k: 0, w: wV}}, func(b *ssa.BasicBlock) bool {
+			return !(b == direct.Block() || direct.Block().Dominates(b))
+		})
+		got, bad := sum.canon()
+		want := thriftBinarySpec()["Binary"].writer
+		okCopy, dCopy := bad == "" && firstDiff(got, want) == "", bad
+		if bad == "" {
+			dCopy = firstDiff(got, want)
 		}
-		okCopy := cp != nil && cp.Common().Args[1] == ssa.Value(buf) && cp.Common().Args[2] == ssa.Value(v)
-		if okCopy {
-			okCopy = false
-			for _, ret := range returnsOf(fn) {
-				if ret.Results[0] == ssa.Value(cp) {
-					okCopy = true
-				}
-			}
+		if okCopy && sum.total.String() != "4+len(arg0)" {
+			okCopy, dCopy = false, "the copying path reports "+sum.total.String()+" bytes"
 		}
-		r.add("NIL-SAFE", shortName(fn), "call", "otherwise the copying "+copyName+" is called on the same buffer and value and its result returned", P.pos(fn.Pos()), okCopy, "")
+		r.add("NIL-SAFE", shortName(fn), "call", "otherwise the bytes of the copying "+copyName+" are stored (4-byte length, payload) and 4+len(v) is returned", P.pos(fn.Pos()), okCopy, dCopy)
 		// threshold: on the direct path len(v) ≥ threshold; on the nil-writer path the copy is taken
 		vd := fa.sliceDesc(v)
 		th := fa.prove(ineqGE(vd.Len, linConst(4096)), direct.Block(), rootCtx)
